@@ -14,6 +14,15 @@ CHECKS = {
        "real SQLite's dense_rank over the same grid validates the spec itself on every pair. Exhaustive over the grid, not over all int64/float64/strings.",
   note=TRUST + "the exact value encoder tools/vlib/values.py (self-tested against fractions.Fraction); the grid is representative of boundary classes, not all values",
   design="6 C11, 3.1"),
+ "C14": dict(
+  technique="TLA+ spec Format.tla (varint, serial types, record decode, local/overflow split); TLC-exhaustive algebra; trace validation of recorded decode calls and of per-cell scan results on SQLite-written files",
+  text="Format.tla defines varints, two's-complement widths, IEEE doubles, serial types, record decoding and the U/P/X/M/K split. "
+       "TLC checks the split algebra for all 8 page sizes (every P in 0..3U for U=512, threshold neighbourhoods otherwise) and Decode(Encode)=id for varints of every bit length. "
+       "The real readVarint/calculateCellInPageBytes/parseRecord are called on boundary inputs and every call is judged by TLC. "
+       "SQLite writes tables and indexes whose cell payloads sweep the thresholds at 4 (thorough: 8) page sizes; the real scans run under a tracing pager and TLC judges, per cell, "
+       "the decoded values against RecordDecode(raw bytes read by an independent reader), against SQLite's own values, and the overflow pages read against OverflowPages(U,P).",
+  note=TRUST + "independent file reader tools/vlib/sqlitefmt.py is cross-checked against SQLite per row (not trusted); exact value encoder; lengths beyond 3 pages and page sizes other than the swept ones are sampled only",
+  design="6 C14, 3.2"),
 }
 
 NOT_YET = "check not built yet (work in progress; see DESIGN.md section 9 order of work)"
